@@ -10,7 +10,7 @@ SPEC = {
             "zeroes, full, union, the four sequence shapes, optional signs, zero padding; depth <= 3) plus shapes just outside "
             "it; judged when Some(intervals): (subset) every integer string over {+,-,0-9} up to length 4 the regex matches "
             "lies in an interval; (superset) sampled interval members (bounds, bounds+-1, 0, +-1, interior, large) have an "
-            "accepted encoding [sign]0^k digits, k<=4; sampled non-members just outside the bounds have none. compression "
+            "accepted encoding [sign]0^k digits, k<=10; sampled non-members just outside the bounds have none. compression "
             "case = list of r, r*, r+ runs in all orders: Concat(parts) and Concat(compressed) accept the same strings up to "
             "length 6 over the regex alphabet. distinct = distinct regex ASTs / part lists",
     "minimum": {"quick": {"intervals_judged": 1500, "nothing": 50, "compressions_judged": 800},
@@ -186,8 +186,10 @@ def judge_intervals(ctx, t, outside=False):
         key = None
         if not bad1 and not bad3 and bad2:
             allbad = [v for v in samples if not R5.representable(pat, v)]
-            if has_full(t) and (-MAXS, MAXS) in ivs and all(not any(a <= v <= b for a, b in ivs if (a, b) != (-MAXS, MAXS)) for v in allbad):
-                key = KF_FULL  # [0-9]* / [0-9]+ is mapped to (-maxsize, maxsize) whatever signs the regex allows
+            if has_full(t) and all(v != 0 and R5.representable(pat, -v) and any(a <= v <= b and MAXS in (-a, b) for a, b in ivs) for v in allbad):
+                # [0-9]* / [0-9]+ is mapped to the sign-symmetric (-maxsize, maxsize): every unmatched member is the mirror
+                # image of a matched one and lies in an interval with an infinite bound
+                key = KF_FULL
             elif sign_after_first(t):
                 key = KF_SIGNPAD
         if outside and key is None:
@@ -243,7 +245,12 @@ def run(ctx):
     while ctx.running():
         x = rng.random()
         if x < 0.6:
-            judge_intervals(ctx, g.regex(rng.randint(0, 3)))
+            t = g.regex(rng.randint(0, 3))
+            st, v = ctx.guarded(judge_intervals, ctx, t, timeout=30)
+            if st == "watchdog":
+                ctx.inconclusive("watchdog")
+            elif st == "exc":
+                raise v
         elif x < 0.75:
             try:
                 judge_intervals(ctx, g.outside(rng.randint(0, 2)), outside=True)
@@ -255,7 +262,11 @@ def run(ctx):
             for _ in range(rng.randint(1, 5)):
                 b = rng.choice(base)
                 parts.append(rng.choice([b, star(b), plus(b), b, opt(b) if rng.random() < 0.2 else b]))
-            judge_compress(ctx, parts)
+            st, v = ctx.guarded(judge_compress, ctx, parts, timeout=60)
+            if st == "watchdog":
+                ctx.inconclusive("watchdog")
+            elif st == "exc":
+                raise v
 
 
 def replay(ctx, w):
